@@ -59,6 +59,27 @@ CHECKS = {
          'two repository screen programs must present identical frames on every mode.',
          'Device accesses outside segments, screens larger than 64 pixels and behaviour after a rejected stream are outside the bound.',
          'DESIGN.md section 3 C19'),
+ 'C06': ('exploration',
+         'exhaustive enumeration of Writer call sequences over an edge alphabet x width x version x preset, read back and compared with a format model',
+         'All single-segment call sequences (10 starts x 11 data lists x 6 data-range kinds x 9 lengths around the dense/lazy '
+         'threshold), all two-segment sequences over a collision alphabet (adjacent / overlapping / same / before / far; shared, '
+         'partially overlapping and out-of-pool data ranges) and three-segment sequences, at w=8/16/32/64 and versions 0-3 (lzma '
+         'presets 0/6/9): accepted => the Reader loads exactly the denoted image (every data word, zero tails probed at the '
+         'threshold edges, neighbours invalid) and all versions give the same image; unrepresentable => FlipJumpWriteFjmException, '
+         'never a raw exception, a refused file or a differently loaded one. Assembled stl programs are compared across versions and '
+         'against an independent decoder.',
+         'Trusts the format model R2 (fjv/ref/fjm.py, ~100 lines). A representable input that the writer rejects is counted, not alarmed.',
+         'DESIGN.md section 3 C06'),
+ 'C10': ('fault_enumeration',
+         'crash-point / corruption enumeration: every prefix, every header/table field substitution, payload byte substitutions, appended bytes, all short strings',
+         'Corpus = files produced by the real Writer/assembler for every width x version (single op, multi-segment with lazy tail, '
+         'unreferenced data, shared data, empty data, assembled hello-world, incompressible 140-190 KB v3 payloads, presets 0/9). '
+         'Every strict prefix (every byte for small files), every single-field substitution over an edge alphabet, single-byte payload '
+         'substitutions, appended bytes (1 byte .. 3x64 KiB) and all strings of length <= 2 are loaded: only an image or '
+         'FlipJumpReadFjmException may result, within 10 s and a size-related allocation budget; a loaded prefix must equal the '
+         'original image; a loaded file must be consistent by the format model and decode to its image.',
+         'No checksum exists, so a field change that yields another well-formed file is a different program, not a violation; a v3 decompression bomb is not enumerated.',
+         'DESIGN.md section 3 C10'),
 }
 
 NOT_YET = {
